@@ -3,7 +3,7 @@ from pyvc.contracts import contract, T
 from .shapes_geonet import *
 
 S = dict(mode="bv", spec_module="spec_geonet")
-P = ["C02", "C01"]
+P = ["C02", "C01", "C06"]
 
 # ---------------------------------------------------------------- LT / Basic header
 contract(f"{BH}:LT.encode_to_int", props=P + ["C20"], shapes={"self": LTS}, requires=["lt_valid(self)"],
